@@ -51,7 +51,7 @@ fn run_case(rec: &mut Rec, c: &Case) {
 }
 
 fn n_groups(ctx: &Ctx) -> u64 {
-  ctx.n(160, 8000)
+  ctx.n(480, 16000)
 }
 
 /// child / in-process worker: groups g = shard, shard+shards, ...
